@@ -37,7 +37,22 @@ RULE = (
     "1e-10 / 1e-12 (whole tensor below every absolute tolerance); Kruskal class 'near-equal-factors' (factors equal up "
     "to relative noise 2.3e-16 .. 1e-5) and the C08 provenances 'balanced' / 'near'.  Several live objects: the "
     "results of symmetrize (both versions, first / second call, result of the result) are assigned to and the operand "
-    "and the other results judged again; a symmetrised Kruskal tensor is re-parameterised in place."
+    "and the other results judged again; a symmetrised Kruskal tensor is re-parameterised in place.  Round 4 "
+    "(C15/presentation/*, C15/rejected): orders 2..6 with one group, a proper subset, two or three groups of 2..3 modes; "
+    "data also exactly symmetric in a sub-group only (the first two listed modes of a group, the last two, its first "
+    "and last) with the other groups symmetric or generic; data handed over as float64 / int64 / int32 / uint8 / float32 "
+    "/ read-only (copy=False) / strided view / C-ordered / grown.  The same request is put in every presentation pyttb "
+    "accepts - group array 1-D / 2-D / None, int8..uint64 / intp, F-ordered, read-only, strided and negative-stride "
+    "views, groups listed in reversed / drawn order, modes of a group reversed / ascending / descending / drawn / "
+    "rotated; the older implementation requested positionally or by keyword with 1, numpy integers, 0, True, 1.0, a "
+    "string; return_details on / off, positionally / by keyword - and must give the same boolean (the truth), a "
+    "details triple that is consistent with its own permutations, and for symmetrize the same tensor bit for bit "
+    "(same listing) or the same average to the rounding bound (another listing of the same groups); the same under "
+    "a root logger at DEBUG; receiver and group argument unchanged.  Rejected requests: mode sizes differing inside "
+    "a group at any listed position (also against extents of 1 and constant data), groups sharing a mode (adjacent "
+    "or not in the listing, all extents equal or 1), a mode that does not exist must be rejected by both versions "
+    "of symmetrize; list / tuple / float array / empty group are rejected or answered correctly; afterwards the "
+    "receiver is bit for bit what it was and the next valid request is judged against the model."
 )
 ASSUMPTIONS = [
     "symmetrisation reference: sum of np.transpose(A, p) over all p permuting modes within groups, divided by the count",
@@ -47,6 +62,12 @@ ASSUMPTIONS = [
     "unequal mode sizes are not symmetric",
     "groups are passed as a rectangular integer array (all groups of one call have the same length); lists and "
     "tuples are rejected by pyttb (AttributeError: the parameter is documented as np.ndarray) and are not used",
+    "round 4: lists and tuples are not demanded to work (rejected-or-correct); float32 data is judged exactly where "
+    "nothing is rounded (booleans, same listing bit for bit) and with a single-precision bound where the result is held "
+    "in float32; differences reported for uint8 data are not compared (pyttb subtracts in the data's own dtype); "
+    "issymmetric may answer False for a specification with a non-existent mode when an earlier listed group is "
+    "already not symmetric; symmetrize must reject mismatching sizes, overlapping groups and non-existent modes "
+    "(the pinned tests expect the first two)",
     "Kruskal: symmetric means all factor matrices equal (the Kruskal test); the denoted array is compared within the "
     "C08 rounding bound, never with the exact dense test",
 ]
@@ -439,6 +460,285 @@ def ktensor_sym(ctx, case):
               "kt-symmetrize-result-does-not-alias-operand")
     DS2 = ref.den(S)
     ctx.check(ref.same_bound(DS2, DS, BS, 4 * nterm), "kt-symmetrize-result-factors-are-separate-arrays", ref.diff_info(DS2, DS))
+
+
+# --------------------------------------------------------------------------
+# round 4: the same request in several presentations; reporting options and environment; rejected specifications
+# --------------------------------------------------------------------------
+
+
+def _snap(X):
+    d = np.asarray(X.data)
+    return (d.copy(order="K"), d.dtype, tuple(d.shape), tuple(int(x) for x in X.shape), bool(d.flags["F_CONTIGUOUS"]))
+
+
+def _same_state(X, snap):
+    d = np.asarray(X.data)
+    return (d.dtype == snap[1] and tuple(d.shape) == snap[2] and tuple(int(x) for x in X.shape) == snap[3]
+            and bool(d.flags["F_CONTIGUOUS"]) == snap[4] and np.array_equal(d, snap[0]))
+
+
+def _arg_snap(arg):
+    return None if not isinstance(arg, np.ndarray) else (arg.copy(), arg.dtype, arg.shape)
+
+
+def _arg_same(arg, snap):
+    return snap is None or (isinstance(arg, np.ndarray) and arg.dtype == snap[1] and arg.shape == snap[2]
+                            and np.array_equal(arg, snap[0]))
+
+
+def _call_old(fn, arg, vform, *more):
+    """the older implementation requested the way vform = (positional | keyword, value) says"""
+    how, v = vform
+    v = H.version_value(v)
+    return fn(arg, v, *more) if how == "pos" else fn(arg, version=v, **({"return_details": more[0]} if more else {}))
+
+
+def _check_details(ctx, A, listed, out, tag, dform):
+    """(answer, differences, permutations): one row per permutation of every listed group, each a mode order that moves
+    only the modes of that group; the reported difference of a row is max |A - transpose(A, row)|; the answer is true
+    exactly when every reported difference is zero."""
+    ctx.require(isinstance(out, tuple) and len(out) == 3, f"issymmetric-details-returns-triple-{tag}", type(out).__name__)
+    ans, diffs, perms = out
+    ctx.require(isinstance(ans, (bool, np.bool_)), f"issymmetric-returns-bool-{tag}", type(ans).__name__)
+    N = A.ndim
+    want_rows = []
+    for g in listed:
+        want_rows += [tuple(p) for p in H.full_perms(N, [sorted(g)])]
+    diffs, perms = np.asarray(diffs, dtype=float).reshape(-1), np.asarray(perms)
+    ctx.require(perms.shape == (len(want_rows), N) and diffs.shape == (len(want_rows),), "issymmetric-details-shapes",
+                (perms.shape, diffs.shape))
+    rows = [tuple(int(x) for x in r) for r in perms]
+    ctx.check(sorted(rows) == sorted(want_rows) and np.array_equal(perms, np.array(rows)),
+              "issymmetric-details-list-every-permutation-of-every-group", perms.tolist())
+    ctx.check(bool((diffs == 0).all()) == bool(ans), "issymmetric-details-consistent-with-answer", diffs.tolist())
+    if all(sorted(r) == list(range(N)) for r in rows) and dform != "uint8":
+        want_d = np.array([float(np.max(np.abs(A - np.transpose(A, r)))) if A.size else 0.0 for r in rows])
+        ok = np.array_equal(diffs, want_d) if dform != "float32" else bool(
+            (np.abs(diffs - want_d) <= 2.0 ** -22 * np.maximum(want_d, np.max(np.abs(A)) if A.size else 0.0)).all())
+        ctx.check(ok, "issymmetric-details-differences-belong-to-listed-permutations", (diffs.tolist(), want_d.tolist()))
+    return bool(ans)
+
+
+@cell("C15/presentation/issymmetric", strategy=lambda tier: H.pres_case(tier), quick=60, thorough=500, shards=(2, 12))
+def pres_issymmetric(ctx, case):
+    """the symmetry test put in every presentation of the same group specification x both implementations requested in
+    every accepted way x details on / off (positionally and by keyword) x logging at DEBUG: one answer, the truth"""
+    X, A = H.build_form(case)
+    groups, dform = case["groups"], case["dform"]
+    truth = H.invariant(A, groups)
+    ctx.nt = any(len(g) >= 2 for g in groups) and (len(groups) > 1 or len(A.shape) >= 3) and case["data_class"] != "symmetric"
+    ctx.label(*H.pres_labels(case), "truth-" + str(truth))
+    snap = _snap(X)
+    pres = [("2d-int64", np.array(groups, dtype=np.int64), True)] + H.grps_presentations(case)
+    if sum(H.nperms([g]) for g in groups) > 24:
+        # (the older implementation permutes the tensor once per listed permutation: a drawn subset of the presentations)
+        pres = pres[:1] + [pres[1 + i % (len(pres) - 1)] for i in sorted(set(case["psel"]))]
+        ctx.label("presentations-subset")
+    k = case["psel"][0]
+    for name, arg, _same in pres:
+        asnap = _arg_snap(arg)
+        listed = groups if arg is None else [list(int(x) for x in r) for r in np.atleast_2d(arg)]
+        vform = H.OLD_VERSION_FORMS[k % len(H.OLD_VERSION_FORMS)]
+        k += 1
+        with ctx.sut("tensor.issymmetric-presentation"):
+            a_new = X.issymmetric(arg) if k % 3 else X.issymmetric(arg, None, False)
+            a_old = _call_old(X.issymmetric, arg, vform)
+            d_new = X.issymmetric(arg, return_details=True) if k % 2 else X.issymmetric(arg, None, True)
+            d_old = _call_old(X.issymmetric, arg, vform, True)
+        ctx.label("grps-" + name, f"version-{vform[0]}-{vform[1]}")
+        ok = all(isinstance(a, (bool, np.bool_)) for a in (a_new, a_old))
+        ctx.check(ok, "issymmetric-returns-bool", (type(a_new).__name__, type(a_old).__name__, name, list(vform)))
+        ctx.check(ok and bool(a_new) == truth, "issymmetric-presentation-answer-equals-invariance-test", (name, a_new, truth))
+        ctx.check(ok and bool(a_old) == truth, "issymmetric-presentation-old-answer-equals-invariance-test",
+                  (name, list(vform), a_old, truth))
+        b1 = _check_details(ctx, A, listed, d_new, "default-version", dform)
+        b2 = _check_details(ctx, A, listed, d_old, "old-version", dform)
+        ctx.check(b1 == truth and b2 == truth, "issymmetric-details-do-not-change-the-answer", (name, b1, b2, truth))
+        ctx.check(_arg_same(arg, asnap), "issymmetric-leaves-group-argument", name)
+    ctx.check(_same_state(X, snap), "issymmetric-leaves-operand")
+    # reporting environment: the root logger at DEBUG changes nothing
+    arg = np.array(groups, dtype=np.int64)
+    with H.debug_logging():
+        with ctx.sut("tensor.issymmetric-debug-logging"):
+            e_new = X.issymmetric(arg)
+            e_old = X.issymmetric(arg, version=1)
+            e_det = X.issymmetric(arg, return_details=True)
+    ctx.check(isinstance(e_new, (bool, np.bool_)) and isinstance(e_old, (bool, np.bool_)) and bool(e_new) == truth
+              and bool(e_old) == truth, "issymmetric-same-answer-under-debug-logging", (e_new, e_old, truth))
+    _check_details(ctx, A, groups, e_det, "debug-logging", dform)
+    ctx.check(_same_state(X, snap) and np.array_equal(arg, np.array(groups)), "issymmetric-leaves-operands-under-debug-logging")
+
+
+@st.composite
+def _pres_sym_case(draw, tier):
+    c = draw(H.pres_case(tier))
+    c["version"] = draw(st.sampled_from([None, None, 1]))
+    return c
+
+
+def _near(R, expect, bound, nperm, exact, single=False):
+    """single: the operand holds float32 data - pyttb may sum it in single precision whatever the dtype of the result
+    (the default version does), so the bound is the single-precision one and nothing is demanded exactly"""
+    got = ref.den(R)
+    single = single or np.asarray(R.data).dtype == np.float32
+    if exact and not single:
+        return ref.same_exact(got, expect)
+    return ref.same_bound(got, expect, bound * (2.0 ** 29 if single else 1.0), nperm)
+
+
+@cell("C15/presentation/symmetrize", strategy=_pres_sym_case, quick=60, thorough=500, shards=(2, 12))
+def pres_symmetrize(ctx, case):
+    """symmetrize with the group specification in every presentation: the same listing gives the same tensor bit for bit,
+    another listing of the same groups the same average to the rounding bound, always exactly symmetric"""
+    X, A = H.build_form(case)
+    groups, version = case["groups"], case["version"]
+    expect, nperm = H.sym_mean(A, groups)
+    bound, _ = H.sym_mean(np.abs(A), groups)
+    ctx.nt = any(len(g) >= 2 for g in groups) and not H.invariant(A, groups)
+    ctx.label(*H.pres_labels(case), "old-version" if version else "default-version")
+    if case.get("sub") and not H.invariant(A, groups):
+        ctx.label("symmetric-in-sub-pair-only")
+    snap = _snap(X)
+    base = np.array(groups, dtype=np.int64)
+    with ctx.sut("tensor.symmetrize-baseline"):
+        R0 = X.symmetrize(base) if version is None else X.symmetrize(base, version=1)
+    ctx.require(isinstance(R0, ttb.tensor) and tuple(R0.shape) == A.shape, "symmetrize-returns-tensor-of-same-shape",
+                type(R0).__name__)
+    got0 = ref.den(R0)
+    # integer data: the old version divides an exact sum once; the default version averages group after group, exact
+    # when every division is by a power of two or there is one group
+    exact = case["vkind"] == "int" and (bool(version) or len(groups) == 1 or all(len(g) <= 2 for g in groups))
+    single = case["dform"] == "float32"
+    ctx.check(_near(R0, expect, bound, nperm, exact, single), "symmetrize-is-permutation-average", ref.diff_info(got0, expect))
+    ctx.check(H.invariant(got0, groups), "symmetrize-result-exactly-symmetric")
+    pres = H.grps_presentations(case)
+    if nperm * A.size > 4000 and version:
+        pres = [pres[i % len(pres)] for i in sorted(set(case["psel"]))]
+        ctx.label("presentations-subset")
+    k = case["psel"][1]
+    for name, arg, same in pres:
+        asnap = _arg_snap(arg)
+        vform = H.OLD_VERSION_FORMS[k % len(H.OLD_VERSION_FORMS)]
+        k += 1
+        with ctx.sut("tensor.symmetrize-presentation"):
+            if version is None:
+                R = X.symmetrize(arg) if k % 3 else (X.symmetrize(arg, None) if k % 2 else X.symmetrize(grps=arg, version=None))
+            else:
+                R = _call_old(X.symmetrize, arg, vform)
+        ctx.label("grps-" + name, "same-listing" if same else "other-listing")
+        ctx.require(isinstance(R, ttb.tensor) and tuple(R.shape) == A.shape, "symmetrize-returns-tensor-of-same-shape",
+                    (name, type(R).__name__))
+        got = ref.den(R)
+        if same:
+            ctx.check(ref.same_exact(got, got0), "symmetrize-presentation-same-answer",
+                      (name, list(vform) if version else None, ref.diff_info(got, got0)))
+        else:
+            ctx.check(_near(R, expect, bound, 2 * nperm, False, single), "symmetrize-presentation-is-permutation-average",
+                      (name, ref.diff_info(got, expect)))
+        ctx.check(H.invariant(got, groups), "symmetrize-presentation-result-exactly-symmetric", name)
+        ctx.check(_arg_same(arg, asnap), "symmetrize-leaves-group-argument", name)
+    ctx.check(_same_state(X, snap), "symmetrize-leaves-operand")
+    with H.debug_logging():
+        with ctx.sut("tensor.symmetrize-debug-logging"):
+            Re = X.symmetrize(base) if version is None else X.symmetrize(base, version=1)
+    ctx.check(isinstance(Re, ttb.tensor) and ref.same_exact(ref.den(Re), got0), "symmetrize-same-answer-under-debug-logging")
+    ctx.check(_same_state(X, snap) and np.array_equal(base, np.array(groups)), "symmetrize-leaves-operands-under-debug-logging")
+    ctx.check(ref.same_exact(ref.den(R0), got0), "symmetrize-result-stable")
+
+
+MUST_REJECT = ("mismatch", "overlap", "out-of-range")
+
+
+@cell("C15/rejected", strategy=lambda tier: H.bad_case(tier), quick=80, thorough=800, shards=(2, 12))
+def rejected(ctx, case):
+    """an ill-formed group specification (mode sizes differing inside a group - at any position, against extents of 1;
+    groups sharing a mode - adjacent or not; a mode that does not exist) is rejected by both versions of symmetrize; a
+    specification pyttb may or may not accept (list, tuple, float array, empty group) is rejected or answered
+    correctly; in every case the receiver and the argument are what they were, and the next valid request is answered
+    as if nothing had happened"""
+    X, A = H.build_form(case)
+    kind, valid, bad = case["kind"], case["groups"], case["bad"]
+    N = len(case["shape"])
+    one_d = case["form"] == "1d" and len(bad) == 1
+    if kind == "list-of-lists":
+        arg = list(valid[0]) if one_d else [list(g) for g in valid]
+    elif kind == "tuple":
+        arg = tuple(valid[0]) if one_d else tuple(tuple(g) for g in valid)
+    elif kind == "float-array":
+        arg = np.array(valid[0] if one_d else valid, dtype=float)
+    elif kind == "empty-group":
+        arg = np.zeros((0,) if one_d else (1, 0), dtype=np.int64)
+    else:
+        arg = H.grps_array(bad, "1d" if one_d else "2d", case["gdtype"])
+    must = kind in MUST_REJECT
+    ctx.nt = must
+    ctx.label(f"order{N}", "kind-" + kind, "dform-" + case["dform"], "grps-" + ("1d" if one_d else "2d"),
+              "all-extents-1" if set(case["shape"]) == {1} else ("all-extents-equal" if len(set(case["shape"])) == 1 else "mixed-extents"),
+              "grp-" + case["structure"])
+    if kind == "mismatch":
+        ctx.label(f"mismatch-at-position-{min(case['note']['pos'], 2)}", "mismatch-in-group-%d" % min(case["note"]["group"], 1))
+    if kind == "overlap" and case.get("note") and case["note"]["pair"][1] - case["note"]["pair"][0] > 1:
+        ctx.label("overlap-of-non-adjacent-groups")
+    snap, asnap = _snap(X), _arg_snap(arg)
+    eff = valid if kind in ("list-of-lists", "tuple", "float-array") else ([] if kind == "empty-group" else None)
+    for tag, version in (("new", None), ("old", 1)):
+        R, raised = None, False
+        try:
+            R = X.symmetrize(arg, version=version)
+        except Exception:  # noqa: BLE001
+            raised = True
+        ctx.label(f"symmetrize-{tag}-" + ("raised" if raised else "returned"))
+        if must:
+            ctx.check(raised, f"symmetrize-{tag}-rejects-{kind}", type(R).__name__)
+        elif not raised and eff is not None:
+            expect, nperm = H.sym_mean(A, eff)
+            bound, _ = H.sym_mean(np.abs(A), eff)
+            ctx.check(isinstance(R, ttb.tensor) and tuple(R.shape) == A.shape and ref.same_bound(ref.den(R), expect, bound, nperm),
+                      f"symmetrize-{tag}-rejected-or-correct", kind)
+        ctx.check(_same_state(X, snap), f"symmetrize-{tag}-receiver-unchanged-after-rejected-request", kind)
+        ctx.check(_arg_same(arg, asnap), f"symmetrize-{tag}-group-argument-unchanged-after-rejected-request", kind)
+    for tag, kw in (("new", {}), ("old", {"version": 1}), ("details", {"return_details": True})):
+        out, raised = None, False
+        try:
+            out = X.issymmetric(arg, **kw)
+        except Exception:  # noqa: BLE001
+            raised = True
+        ans = out[0] if isinstance(out, tuple) and out else out
+        if kind == "out-of-range":
+            # (the test may stop at an earlier group that is already not symmetric: False is then the answer)
+            good = [g for g in bad if all(m < N for m in g)]
+            ctx.check(raised or (isinstance(ans, (bool, np.bool_)) and not bool(ans) and not H.invariant(A, good)),
+                      f"issymmetric-{tag}-rejects-out-of-range", ans)
+        elif kind in ("mismatch", "overlap"):
+            truth = False if kind == "mismatch" else H.invariant(A, bad)
+            ctx.check(not raised and isinstance(ans, (bool, np.bool_)) and bool(ans) == truth,
+                      f"issymmetric-{tag}-answer-on-{kind}", (raised, ans, truth))
+        elif not raised and eff is not None:
+            truth = H.invariant(A, eff)
+            ctx.check(isinstance(ans, (bool, np.bool_)) and bool(ans) == truth, f"issymmetric-{tag}-rejected-or-correct", (kind, ans))
+        ctx.check(_same_state(X, snap), f"issymmetric-{tag}-receiver-unchanged-after-rejected-request", kind)
+        ctx.check(_arg_same(arg, asnap), f"issymmetric-{tag}-group-argument-unchanged-after-rejected-request", kind)
+    # the next valid request is answered as if the rejected ones had not been made
+    if kind == "mismatch":
+        vg = [g for i, g in enumerate(valid) if H.sizes_match(case["shape"], [g])] or [[valid[0][0]]]
+    else:
+        vg = valid
+    garg = np.array(vg, dtype=np.int64)
+    expect, nperm = H.sym_mean(A, vg)
+    bound, _ = H.sym_mean(np.abs(A), vg)
+    with ctx.sut("tensor.symmetrize-after-rejected-request"):
+        Rn = X.symmetrize(garg)
+        Ro = X.symmetrize(garg, version=1)
+        a1 = X.issymmetric(garg)
+        a2 = X.issymmetric(garg, version=1)
+    for tag, R in (("new", Rn), ("old", Ro)):
+        ctx.check(isinstance(R, ttb.tensor) and tuple(R.shape) == A.shape and ref.same_bound(ref.den(R), expect, bound, nperm)
+                  and H.invariant(ref.den(R), vg), f"symmetrize-{tag}-after-rejected-request-is-permutation-average")
+    truth = H.invariant(A, vg)
+    ctx.check(bool(a1) == truth and bool(a2) == truth, "issymmetric-after-rejected-request-answer-equals-invariance-test",
+              (a1, a2, truth))
+    ctx.check(_same_state(X, snap), "receiver-unchanged-at-the-end")
 
 
 # --------------------------------------------------------------------------
